@@ -271,9 +271,13 @@ AItStep(e) ==
         r   == IterAdvance(it.list, it.actual, it.last, d)
         exp == IF r.kind = "end" THEN [kind |-> "end"] ELSE Project(r.p, it.flags)
         props == {"C05"} \cup KindProp(it.seg) \cup GProp(e) \cup (IF it.reuse THEN {"C13"} ELSE {})
-        bad == IF ~segs[it.seg].failed
-               THEN IF e.res = exp THEN {} ELSE props
-               ELSE IF e.res.kind = "err" \/ e.res = exp \/ e.res.kind = "end" THEN {} ELSE {"C19"}
+        \* a behaviour emitted by a Level-I model carries the model's own expectation: the two
+        \* levels of the specification must agree, else the generator (not ice) is at fault
+        gen == IF e.model_exp # -2 /\ e.model_exp # (IF r.kind = "end" THEN -1 ELSE r.p.doc) THEN {"GEN"} ELSE {}
+        bad == gen \cup
+               (IF ~segs[it.seg].failed
+                THEN IF e.res = exp THEN {} ELSE props
+                ELSE IF e.res.kind = "err" \/ e.res = exp \/ e.res.kind = "end" THEN {} ELSE {"C19"})
     IN /\ e.it \in DOMAIN its
        /\ its' = [its EXCEPT ![e.it].last = IF r.kind = "end" THEN Ended ELSE r.p.doc]
        /\ obs' = Obs(e.ev, props, bad, exp, e.res)
